@@ -181,3 +181,10 @@ package dvid
 //@   requires len(b) >= 1
 //@   ensures result1 == nil ==> len(result0) * 2 == len(b) && fresh(result0)
 //@   ensures result1 != nil ==> result0 == nil
+
+// ---- optional block bounds (C08, C18) ----
+
+//@ func OptionalBounds.Outside
+//@   prop C08
+//@   ensures b == nil ==> !result
+//@   ensures b != nil ==> result == outsideB(b, pt[0], pt[1], pt[2])
